@@ -257,6 +257,19 @@ var constraints = []constraint{
 		q["biases"] = oneBias("anchoring", p)
 	}},
 	// not in the statement's catalogue: any well-formed answer is accepted, but the service must answer and survive
+	{name: "criteriaNamedLikeConcealedOnes", expect: 200, apply: func(q M) {
+		// the request's own criteria carry the ids a concealment would generate second and third: the new criterion still
+		// gets an id that is free
+		renameCriterion(q, "c1", "__concealedCriterion__2")
+		renameCriterion(q, "c2", "__concealedCriterion__3")
+		q["biases"] = oneBias("criteriaConcealment", M{"randomSeed": 7, "newCriterionRandomSeed": 11})
+	}},
+	{name: "criteriaNamedLikeConcealedOnesTwice", expect: 200, apply: func(q M) {
+		renameCriterion(q, "c0", "__concealedCriterion__1")
+		renameCriterion(q, "c1", "__concealedCriterion__3")
+		renameCriterion(q, "c2", "__concealedCriterion__4")
+		q["biases"] = []interface{}{M{"name": "criteriaConcealment", "props": M{"randomSeed": 7}}, M{"name": "criteriaConcealment", "props": M{"randomSeed": 8}}}
+	}},
 	{name: "emptyMethod", expect: 0, apply: func(q M) { q["preferenceFunction"] = "  " }},
 	{name: "unknownDrawResolution", methods: []string{"majorityHeuristic"}, expect: 0, apply: func(q M) { mpOf(q)["drawResolution"] = "noSuchPolicy" }},
 	{name: "unknownReferenceCriterionType", expect: 0, apply: func(q M) { q["biases"] = oneBias("criteriaConcealment", M{"referenceCriterionType": "noSuchType"}) }},
@@ -820,4 +833,51 @@ func init() {
 				floors: map[string]int64{"batches": 4, "constraints_rejected": 600, "sent:valid": 1200, "sent:mutation": 2500, "sent:malformed": 200, "sent:fault": 20, "sent:extreme": 10}},
 		},
 	})
+}
+
+// renameCriterion gives a criterion of a catalogue request another id everywhere it is named: declaration, values,
+// weights / ELECTRE entries / capacities (comma-joined, kept sorted), explicit levels
+func renameCriterion(q M, from, to string) {
+	for _, c := range q["criteria"].([]interface{}) {
+		if c.(M)["id"] == from {
+			c.(M)["id"] = to
+		}
+	}
+	mv := func(m M) {
+		if m == nil {
+			return
+		}
+		for _, k := range sortedKeysM(m) {
+			parts := strings.Split(k, ",")
+			hit := false
+			for i, p := range parts {
+				if p == from {
+					parts[i], hit = to, true
+				}
+			}
+			if hit {
+				sort.Strings(parts)
+				v := m[k]
+				delete(m, k)
+				m[strings.Join(parts, ",")] = v
+			}
+		}
+	}
+	for _, a := range q["knownAlternatives"].([]interface{}) {
+		mv(a.(M)["criteria"].(M))
+	}
+	mp := mpOf(q)
+	if w, ok := mp["weights"].(M); ok {
+		mv(w)
+	}
+	if e, ok := mp["electreCriteria"].(M); ok {
+		mv(e)
+	}
+	if ps, ok := mp["params"].(M); ok {
+		if ths, ok := ps["thresholds"].([]interface{}); ok {
+			for _, t := range ths {
+				mv(t.(M))
+			}
+		}
+	}
 }
